@@ -62,6 +62,13 @@ class Check(PropertyCheck):
                 fs = [rng.choice(gen.FILTER_NAMES) for _ in range(k)]
                 sub = [i for i in ready if rng.random() < 0.7] or [rng.choice(ready)]
                 lines.append("flt " + " ".join(fs) + " ; " + " ".join(map(str, sub)))
+            if gen.is_flexible(jobs) or rng.random() < 0.2:
+                # every order of three (and all four) DISTINCT built-in filters, on the full ready list: a composition is its members
+                # applied one after the other, none of them can be left out because another one is there
+                import itertools
+                perms = list(itertools.permutations(gen.FILTER_NAMES, 3)) + list(itertools.permutations(gen.FILTER_NAMES, 4))
+                for fs in rng.sample(perms, 4):
+                    lines.append("flt " + " ".join(fs) + " ; " + " ".join(map(str, ready)))
 
         probes()
         n_acc = 0
